@@ -42,10 +42,10 @@ func (c *Ctx) rch2() {
 	for _, p := range c.Paths("RCH-2", lw) {
 		for i := range p.Events {
 			e := &p.Events[i]
-			if e.Kind != pathx.KSelect || e.Select == nil || !e.Select.Blocking || seen[e.Select] {
+			if e.Kind != pathx.KSelect || e.Select == nil || !e.Select.Blocking {
 				continue
 			}
-			takesToken, timed := false, false
+			takesToken, timed, oneShot := false, false, false
 			for _, st := range e.Select.States {
 				if st.Dir != types.RecvOnly {
 					continue
@@ -55,10 +55,50 @@ func (c *Ctx) rch2() {
 				}
 				if isTimeChan(st.Chan) {
 					timed = true
+					// the wake-up recurs: a ticker, or a timer that this very iteration
+					// armed (time.After, NewTimer or Reset on the segment before the select)
+					if u, ok := stripConv(st.Chan).(*ssa.UnOp); ok {
+						if fa, ok := u.X.(*ssa.FieldAddr); ok && strings.Contains(fa.X.Type().String(), "time.Timer") {
+							rearmed := false
+							for j := 0; j < i; j++ {
+								switch stdName(p.Events[j].Callee) {
+								case "time.NewTimer", "(*time.Timer).Reset", "time.AfterFunc":
+									if p.Events[j].Kind == pathx.KCall {
+										rearmed = true
+									}
+								}
+							}
+							// … or re-armed behind its expiry, inside the same loop
+							if !rearmed && e.Instr != nil {
+								sb := e.Instr.Block()
+								for _, b := range lw.Blocks {
+									for _, ins := range b.Instrs {
+										ci, isCall := ins.(ssa.CallInstruction)
+										if !isCall || stdName(ci.Common().StaticCallee()) != "(*time.Timer).Reset" {
+											continue
+										}
+										if blockReaches(sb, b) && blockReaches(b, sb) {
+											rearmed = true
+										}
+									}
+								}
+							}
+							if !rearmed {
+								oneShot = true
+							}
+						}
+					}
 				}
 			}
 			if takesToken {
 				continue // this select sees the outcome of the attempt directly
+			}
+			if oneShot {
+				a.fail(p, i, "the timed arm of the wait for a pending connect is a timer that this iteration has not armed: after its single expiry the wait has no wake-up left, and a connect attempt that fails later (connPending replaced by connDown, nothing signalled) is never noticed — the request waits for a later success instead of returning ErrDown")
+				continue
+			}
+			if seen[e.Select] {
+				continue
 			}
 			seen[e.Select] = true
 			if timed {
@@ -69,4 +109,25 @@ func (c *Ctx) rch2() {
 		}
 	}
 	a.done(1, "the wait for a pending connect re-examines writeSem on a timer")
+}
+
+// blockReaches: there is a path of control-flow edges from a to b (a ≠ b, or a cycle through a).
+func blockReaches(a, b *ssa.BasicBlock) bool {
+	seen := map[*ssa.BasicBlock]bool{}
+	var dfs func(x *ssa.BasicBlock) bool
+	dfs = func(x *ssa.BasicBlock) bool {
+		for _, s := range x.Succs {
+			if s == b {
+				return true
+			}
+			if !seen[s] {
+				seen[s] = true
+				if dfs(s) {
+					return true
+				}
+			}
+		}
+		return false
+	}
+	return dfs(a)
 }
